@@ -1,6 +1,7 @@
 package mon
 
 import (
+	"bytes"
 	"encoding/json"
 	"fmt"
 	"math/rand/v2"
@@ -35,11 +36,21 @@ type c17YDoc struct {
 	nested1 []int // indices of all nested-mapping lines
 }
 
+// c17YWideChar picks a member of the non-ASCII alphabet, but not U+FEFF: at the start of a line YAML takes it for a byte
+// order mark and skips it (it is put inside quoted scalars only, see c17YBuild).
+func c17YWideChar(r *rand.Rand) string {
+	for {
+		if s := c17Wide[r.IntN(len(c17Wide))].s; s != "\ufeff" {
+			return s
+		}
+	}
+}
+
 func c17YWord(r *rand.Rand, wide bool) string {
 	var sb strings.Builder
 	for n := 1 + r.IntN(7); n > 0; n-- {
 		if wide && r.IntN(4) == 0 {
-			sb.WriteString(c17Wide[r.IntN(len(c17Wide))].s)
+			sb.WriteString(c17YWideChar(r))
 		} else {
 			sb.WriteByte("abcdefghijklmnopqrstuvwxyz0123456789"[r.IntN(36)])
 		}
@@ -82,7 +93,7 @@ func c17YBuild(s c17YSpec) *c17YDoc {
 		}
 		key := fmt.Sprintf("k%d", k)
 		if s.Wide && r.IntN(3) == 0 {
-			key = c17Wide[r.IntN(len(c17Wide))].s + key + c17Wide[r.IntN(len(c17Wide))].s
+			key = c17YWideChar(r) + key + c17YWideChar(r)
 		}
 		e := c17YEntry{key: key}
 		switch r.IntN(9) {
@@ -95,7 +106,16 @@ func c17YBuild(s c17YSpec) *c17YDoc {
 			if r.IntN(5) == 0 {
 				n = 15 + r.IntN(25)
 			}
-			e.line = add(key + `: "` + c17YText(r, s.Wide, n) + `"` + comment())
+			text := c17YText(r, s.Wide, n)
+			if s.Wide && r.IntN(3) == 0 {
+				// a zero width no-break space inside a scalar is a character like any other
+				i := r.IntN(len(text) + 1)
+				for i < len(text) && text[i]&0xC0 == 0x80 {
+					i++
+				}
+				text = text[:i] + "x\ufeffy" + text[i:]
+			}
+			e.line = add(key + `: "` + text + `"` + comment())
 		case 5, 6:
 			e.typ = 'm'
 			e.line = add(key + ":" + comment())
@@ -282,6 +302,22 @@ var kC17Y = run.NewKind("c17.yaml", func(c *run.Ctx, t c17YCase) *run.Fail {
 		opt = run.CLIOpt{Args: args, StdinFile: path, StdinSkip: int64(len(prefix))}
 	default:
 		opt = run.CLIOpt{Args: args, Stdin: whole}
+	}
+	if bytes.Contains(whole, []byte("x\ufeffy")) {
+		// The YAML decoder itself stumbles over some documents with a zero width no-break space inside a scalar (seen:
+		// "did not find expected key" hundreds of lines later in a document that is valid). Such a document cannot carry
+		// an injected fault: the stream without the fault must be accepted first.
+		var clean []string
+		for _, p := range t.Pre {
+			clean = append(clean, c17YBuild(p).lines...)
+			clean = append(clean, "---")
+		}
+		clean = append(clean, c17YBuild(t.Doc).lines...)
+		pre := run.CLI(run.CLIOpt{Args: args, Stdin: []byte(strings.Join(clean, term) + term)})
+		if pre.TimedOut || pre.StartErr != nil || pre.Code != 0 {
+			c.Inconclusive("yaml-decoder-rejects-the-document-without-the-fault")
+			return nil
+		}
 	}
 	res := run.CLI(opt)
 	if res.TimedOut || res.StartErr != nil {
